@@ -14,6 +14,7 @@ package region
 // and validated by TLC (Trace_RegionClient: OwnResponse, OwnException).
 
 import (
+	"github.com/tsuna/gohbase/compression/snappy"
 	"github.com/tsuna/gohbase/hrpc"
 	"runtime"
 	"runtime/debug"
@@ -188,7 +189,12 @@ func TestVerifC02(t *testing.T) {
 
 	// ---- S. real parallelism: many senders on one connection at once (windows between two senders that no hook sits in)
 	for k := 0; k < 3; k++ {
-		wrong, _ := rcStress(16, 4000)
+		var wrong []string
+		if k == 2 {
+			wrong, _ = rcStressWith(12, 2000, snappy.New(), true) // the same over compressed cellblocks (pooled buffers)
+		} else {
+			wrong, _ = rcStress(16, 4000)
+		}
 		for _, w := range wrong {
 			rep.bad("stress:not-the-callers-response", "S/%d (16 concurrent unbatched senders x 4000 requests on one connection): %s", k, w)
 		}
